@@ -34,7 +34,7 @@ ASSUMPTIONS = ['the pristine never-set-up logger state is reconstructed by remov
 LEVELS = ['CRITICAL', 'WARNING', 'INFO', 'DEBUG']
 VERBOSE = ['absent', 'DEBUG', 'INFO', 'WARNING', 'CRITICAL', None]
 VARIANTS = ['sift', 'mask_sift', 'ensemble_sift', 'complete_ensemble_sift']
-LOGFILE = '/sim/log/emd.log'
+LOGFILE = 'emd.log'         # relative to the run's scratch directory
 
 
 def _same(a, b):
